@@ -11,7 +11,7 @@ use serde_json::json;
 
 pub fn profile() -> Profile {
     Profile { min_axes: 1, max_axes: 3, max_glyphs: 2, min_glyphs: 1, outlines: false, cubic: false, components: 0, transforms: false, mixed: false, sparse: 0,
-        order_variety: false, non_export: false, metrics_class_a: false, vertical: false, half_coords: false, maps: true, awkward_axes: true, multi_codepoints: false, ps_names: false, anchors: false, kerning: false, instances: true, flat_maps: true, point_axis: true, weird_names: false }
+        order_variety: false, non_export: false, metrics_class_a: false, vertical: false, half_coords: false, maps: true, awkward_axes: true, multi_codepoints: false, ps_names: false, anchors: false, kerning: false, instances: true, flat_maps: true, point_axis: true, weird_names: false, ..Profile::base() }
 }
 
 fn seg_apply(map: &[(f64, f64)], v: f64) -> (f64, f64) {
